@@ -238,7 +238,7 @@ def _parse_tag(tag):
     for p in parts[1:]:
         if len(p) == 4 and p.isalpha():
             script = p
-        elif len(p) == 2:
+        elif len(p) == 2 or (len(p) == 3 and p.isdigit()):
             region = p
         else:
             variants.append(p)
@@ -346,24 +346,40 @@ def r0_negotiation(ctx):
         r.inst("find_match / filter_matches", "%d (request list, supported set) cases over %d tags: supported-or-default, earlier request wins, exact beats less specific, list grouped in request order" % (n_cases, len(reqs_all)))
 
     # the public entry points: Locale::find_locale (bytes -> lossy parse -> find_match over get_all) and find_matchs
+    # (a model of icu's parser on the spellings used below: `-` or `_` as separator, any letter case, numeric regions and
+    # digit-bearing variants are language identifiers; everything else in the lists below is not)
+    for t in ("es", "es-419", "de-1996", "en-001"):
+        lids[t] = _lid(t)
+        back[lids[t]] = t
+
+    def canon(text):
+        parts = text.replace("_", "-").split("-")
+        out = [parts[0].lower()]
+        for p_ in parts[1:]:
+            out.append(p_.title() if len(p_) == 4 and p_.isalpha() else (p_.upper() if len(p_) == 2 else p_.lower()))
+        return "-".join(out)
+
     def try_from_bytes(args):
         v = args[0]
-        if v[0] == "str" and v[1] in lids:
-            return C("Ok", lids[v[1]])
+        if v[0] == "list" and all(x[0] == "int" for x in v[1]):
+            v = ("str", bytes(x[1] for x in v[1]).decode("utf-8", "replace"))
+        if v[0] == "str" and canon(v[1]) in lids and re.match(r"^[A-Za-z]{2,3}([-_][A-Za-z0-9]+)*$", v[1]):
+            return C("Ok", lids[canon(v[1])])
         return C("Err", absint.A("ParserError"))
     S = lambda x: ("str", x)  # noqa: E731
     funcs2 = dict(funcs)
     n2 = 0
     bad2 = {}
-    for avail in (("en", "fr", "fr-FR"), ("fr-CA", "en-US", "ca-ES"), tuple(UNIVERSE)):
-        for acc in (["%%bad", "fr-FR", "en"], ["de", "", "fr-CA", "en"], ["not a tag"], [], ["en-GB", "??", "ca-ES-valencia"]):
+    for avail in (("en", "fr", "fr-FR"), ("fr-CA", "en-US", "ca-ES"), tuple(UNIVERSE), ("en", "es", "fr", "de", "de-1996")):
+        for acc in (["%%bad", "fr-FR", "en"], ["de", "", "fr-CA", "en"], ["not a tag"], [], ["en-GB", "??", "ca-ES-valencia"], ["es-419", "fr"], ["de-1996", "fr"], ["fr_FR", "en"],
+                    ["EN-us", "fr"], ["q=0.8", "*", "en-001", "fr"], ["x", "fr-ca"]):
             ev = AEval(funcs=funcs2, builtins={"get_all": lambda rv, a, avail=avail: L(*[lids[t] for t in avail]), "from_base_locale": lambda rv, a: a[0] if a else rv})
             ev.path_builtins = {"LanguageIdentifier::try_from_bytes": try_from_bytes, "Self::get_all": lambda a, avail=avail: L(*[lids[t] for t in avail]),
                                 "Self::from_base_locale": lambda a: a[0], "L::get_all": lambda a, avail=avail: L(*[lids[t] for t in avail])}
             got = ev.run_fn(fl, [L(*[S(x) for x in acc])])
             if isinstance(got, str):
                 return r, False, got
-            good = [x for x in acc if x in lids]
+            good = [canon(x) for x in acc if try_from_bytes([S(x)])[1] == "Ok"]
             want = AEval(funcs=funcs).run_fn(funcs["find_match"], [L(*[lids[t] for t in good]), L(*[lids[t] for t in avail])])
             n2 += 1
             if got != want:
